@@ -188,9 +188,12 @@ def sensBlock (numS : Nat) (w : Mat α) (sens : Mat α) (i : Nat) : Mat α :=
 def sensToJtj (n numS : Nat) (w sens : Mat α) : Mat α :=
   fun a b => sumTo n (fun i => matMul numS (transpose (sensBlock numS w sens i)) (sensBlock numS w sens i) a b)
 
+/-- `out = zeros(_); out[idx] = v` for a list of distinct indices: position `q` of `v` lands at `idx[q]` -/
+def scatter (idx : List Nat) (v : Vec α) : Vec α :=
+  fun j => let q := idx.idxOf j; if q < idx.length then v q else 0
+
 /-- the vector `E` of `hessian`: `E = zeros(nS); E[stateIndex] += -diff_loss[i]` -/
-def hessE (stateIdx : List Nat) (dl : Vec α) : Vec α :=
-  fun j => let q := stateIdx.idxOf j; if q < stateIdx.length then 0 + -(dl q) else 0
+def hessE (stateIdx : List Nat) (dl : Vec α) : Vec α := scatter stateIdx (fun q => 0 + -(dl q))
 
 /-- the accumulation `H += kron(E, eye(nP)).dot(FF_i)` over the `n` observation times; `FF i` is
 `vecToMatFF` of row `i` of the integrated forward-forward block, `dl i` row `i` of `diff_loss` -/
@@ -203,8 +206,7 @@ def hessianCoded (nS nP n : Nat) (stateIdx paramIdx : List Nat) (dl : Mat α) (F
 
 /-- the proposed repair of the sign / weight of the second-order term:
 `E[stateIndex] += diff_loss[i] * weight[i]` -/
-def hessERepaired (stateIdx : List Nat) (dl w : Vec α) : Vec α :=
-  fun j => let q := stateIdx.idxOf j; if q < stateIdx.length then 0 + dl q * w q else 0
+def hessERepaired (stateIdx : List Nat) (dl w : Vec α) : Vec α := scatter stateIdx (fun q => 0 + dl q * w q)
 
 def hessianRepaired (nS nP n : Nat) (stateIdx paramIdx : List Nat) (dl w : Mat α) (FF : Nat → Mat α) (JTJ : Mat α) : Mat α :=
   fun a b => sumTo n (fun i => matMul (nS*nP) (kron nP nP (rowMat (hessERepaired stateIdx (dl i) (w i))) eye) (FF i)
